@@ -449,6 +449,27 @@ def check_simulated_records(ctx, cirq):
             got_b = {k: np.asarray(v).astype(int).tolist() for k, v in back.records.items()}
             if got_b != exp:
                 ctx.report_witness('records:json', 'a simulated result does not survive its JSON round trip', dict(rep, impl_out=[got_b, {k: dict(c=bool(np.asarray(v).flags['C_CONTIGUOUS'])) for k, v in res.records.items()}], spec_out=[exp]))
+    # a copy of a classical data store is independent of the original (simulators copy the store for non-collapsing sampling and for
+    # every repetition): recording on the copy leaves the original's records, of the same and of other keys, as they were
+    qa, qb = cirq.LineQubit.range(2)
+    for it in range(6):
+        st = cirq.ClassicalDataDictionaryStore()
+        ka, kc = cirq.MeasurementKey('a'), cirq.MeasurementKey('c')
+        st.record_measurement(ka, (1,), (qa,))
+        st.record_channel_measurement(kc, 2)
+        before = (repr(st.records), repr(st.channel_records), repr(st.measured_qubits))
+        cp = st.copy()
+        if it % 2 == 0:
+            cp.record_measurement(ka, (0,), (qa,))
+        else:
+            cp.record_channel_measurement(kc, 1)
+        cp.record_measurement(cirq.MeasurementKey('b'), (1, 0), (qa, qb))
+        ctx.count('check', 'store-copy')
+        after = (repr(st.records), repr(st.channel_records), repr(st.measured_qubits))
+        if after != before:
+            ctx.report_witness('records:store-copy', 'recording on a copy of a classical data store changes the original', {'lines': [{'call': 'record_measurement' if it % 2 == 0 else 'record_channel_measurement'}], 'impl_out': [after],
+                               'spec_out': [before], 'theorem_or_correspondence': 'C02_record_append_get (records are values)'})
+            break
     # a result with a repeated key has no 2-D view: asking twice gives the same answer (an error), never a partial mapping
     rr = cirq.ResultDict(params=cirq.ParamResolver({}), records={'a': np.array([[[1]]], dtype=np.uint8), 'b': np.array([[[0], [1]]], dtype=np.uint8), 'c': np.array([[[1]]], dtype=np.uint8)})
     answers = []
